@@ -159,7 +159,7 @@ def collect_helpers(modules, baseline, nested_baseline=None):
 
     def add_nested(m, fn, q, depth=0):
         for d, dq, holder in _nested_defs(fn, q):
-            if dq not in nested_baseline and dq not in baseline:
+            if dq not in nested_baseline and dq not in baseline and not getattr(d, '_keep_nested', False):
                 h = Helper(dq, m, None, d)
                 h.parent = fn
                 h.holder = holder
@@ -918,6 +918,19 @@ def nest_lifted_closures(modules, baseline=None, nested=None):
                 plain = hdef.name.lstrip('_')
                 callers = [c for c in cls.body if isinstance(c, ast.FunctionDef) and c is not hdef and
                            ('%s.%s.%s.%s' % (m.name, cls.name, c.name, plain) in nested or '%s.%s.%s.%s' % (m.name, cls.name, c.name, hdef.name) in nested)]
+                if not callers:
+                    # the same edit with a new name: the only caller had a closure in the baseline, has none of them now, and the fresh method is called from nowhere else
+                    for c in cls.body:
+                        if not isinstance(c, ast.FunctionDef) or c is hdef:
+                            continue
+                        pref = '%s.%s.%s.' % (m.name, cls.name, c.name)
+                        base_nested = {x[len(pref):] for x in nested if x.startswith(pref) and '.' not in x[len(pref):]}
+                        if not base_nested:
+                            continue
+                        present = {d.name for d, _q, _h in _nested_defs(c, pref[:-1])}
+                        calls_here = any(isinstance(n, ast.Call) and isinstance(n.func, ast.Attribute) and n.func.attr == hdef.name for n in ast.walk(c))
+                        if calls_here and not (base_nested & present):
+                            callers.append(c)
                 if len(callers) != 1:
                     continue
                 caller = callers[0]
@@ -932,6 +945,7 @@ def nest_lifted_closures(modules, baseline=None, nested=None):
                 new = copy.deepcopy(hdef)
                 new.name = plain
                 new.decorator_list = []
+                new._keep_nested = True
                 if not h.static:
                     hs = new.args.args[0].arg
                     new.args.args = new.args.args[1:]
